@@ -13,7 +13,6 @@ package invoices_test
 import (
 	"context"
 	"fmt"
-	"os"
 	"sort"
 	"strings"
 	"sync"
@@ -916,7 +915,7 @@ func c15Run(t *rapid.T, tt *testing.T, st *vstats.Collector, tpl []byte,
 				t, "replayIdx",
 			)]
 			if m.replayHitsPrecheck(s) {
-				if c15Known(c15KeyReplayPrecheck) {
+				if vstats.IsKnown(c15KeyReplayPrecheck) {
 					st.Known(c15KeyReplayPrecheck)
 					st.Count("excluded_known", 1)
 					continue
@@ -1060,19 +1059,6 @@ func c15Run(t *rapid.T, tt *testing.T, st *vstats.Collector, tpl []byte,
 // replayed HTLC that is on record as accepted or settled is answered with a
 // fail once expiry < height + FinalCltvRejectDelta.
 const c15KeyReplayPrecheck = "C15:replay@spontaneous-expiry-precheck"
-
-func c15Known(key string) bool {
-	if vstats.IsKnown(key) {
-		return true
-	}
-	for _, k := range strings.Split(os.Getenv("VERIF_C15_DEVKNOWN"), ",") {
-		if k == key {
-			return true
-		}
-	}
-
-	return false
-}
 
 // replayHitsPrecheck reports whether notifying s again at the current height
 // runs into the just-in-time invoice pre-check although s is on record.
